@@ -157,9 +157,10 @@ impl InitHeader {
 
         let payload_len = u16::from_be_bytes(payload_len_bytes.try_into().unwrap()).into();
         let data = if payload_len > Self::MAX_PAYLOAD_SIZE {
-            data
+            // Never take more than what fits in an initialization packet.
+            data.get(..Self::MAX_PAYLOAD_SIZE).unwrap_or(data)
         } else {
-            &data[..payload_len]
+            data.get(..payload_len).ok_or(())?
         };
         Ok((
             Self {
@@ -311,6 +312,8 @@ enum ExtensionError {
     OutOfSequence,
     /// Packet is not of the same channel ID as the current message
     WrongChannel,
+    /// Packet does not carry the bytes that are still missing from the message
+    PacketTooShort,
 }
 
 /// Error occuring when trying to create a new message to send to a client
@@ -427,9 +430,15 @@ impl Message {
             let remaining_bytes = self.payload_len - self.payload.len();
             const MAX_CONT_PACKET_LEN: usize = MAX_PACKET_SIZE - ContHeader::HEADER_SIZE;
             if remaining_bytes <= MAX_CONT_PACKET_LEN {
-                self.payload.extend_from_slice(&data[..remaining_bytes]);
+                let data = data
+                    .get(..remaining_bytes)
+                    .ok_or(ExtensionError::PacketTooShort)?;
+                self.payload.extend_from_slice(data);
                 Ok(true)
             } else {
+                let data = data
+                    .get(..MAX_CONT_PACKET_LEN)
+                    .ok_or(ExtensionError::PacketTooShort)?;
                 self.payload.extend_from_slice(data);
                 Ok(false)
             }
